@@ -22,7 +22,7 @@ def cases(draw, mechs=MECHS):
     n = draw(st.one_of(st.integers(0, 30), st.integers(30, 300), st.integers(30, 300), st.integers(300, 3000), st.integers(300, 3000)))
     case = {'mech': mech, 'domain': {'attrs': names, 'shape': sizes}, 'n': n, 'data_seed': draw(st.integers(0, 2**31 - 1)),
             'skew': draw(st.sampled_from([0.0, 1.0, 2.5])),
-            'eps': draw(logf(0.05, 10.0)) if draw(st.integers(0, 7)) else draw(logf(1e-6, 0.05)),
+            'eps': draw(logf(0.05, 10.0)) if draw(st.integers(0, 7)) else draw(logf(3e-4, 0.05)),
             'delta': draw(st.sampled_from([1e-9, 1e-6, 1e-3, 1e-12])),
             'np_seed': draw(st.integers(0, 2**31 - 1)), 'nb_seed': draw(st.integers(0, 2**31 - 1)),
             'neighbour': draw(st.sampled_from(['add', 'remove']))}
